@@ -256,27 +256,27 @@ func (w *world) lockupAccumulation() {
 // between a node and a node initialised from its export one block later, each with the reason. Keys that
 // exist only on the imported node are not judged at all (an import may write defaults explicitly).
 var rawStateAllowed = map[string]string{
-	"staking/0x50/only-A":  "x/staking historical info (block headers of the last N heights): not part of genesis by design",
-	"staking/0x50/value":   "x/staking historical info: not part of genesis by design",
-	"staking/0x37/only-A":  "x/staking unbonding-id counter and index: same cause as the known finding fork-export/staking/...unbonding_id",
-	"staking/0x38/only-A":  "x/staking unbonding-id index: same cause as the known finding fork-export/staking/...unbonding_id",
-	"staking/0x39/only-A":  "x/staking unbonding-id index: same cause as the known finding fork-export/staking/...unbonding_id",
-	"slashing/0x10/only-A": "x/slashing missed-block bitmap chunks that are all zero are not exported (no missed block recorded in them)",
-	"wasm/0x08/only-A":     "x/wasm TX counter of the current block: transient bookkeeping, not part of genesis by design",
-	"bank/0x58/only-A":     "bank supply offsets: reported by the import-query/bank/supply-of oracle (known finding)",
-	"bank/0x58/value":      "bank supply offsets: reported by the import-query/bank/supply-of oracle (known finding)",
-	"epochs/0x01/value":    "x/epochs current_epoch_start_height is set to the import height: compared field by field by the export oracles (known finding when superfluid is in use)",
-	"incentives/0x04/only-A": "x/incentives gauge references by status and start time: upcoming gauges whose start time has passed are filed as active on import (known finding export-roundtrip/incentives/gauges<order>)",
-	"incentives/0x03/only-A": "x/incentives does not export finished gauges (only not-finished ones are part of its genesis)",
-	"twap/0x01/only-A":     "x/twap pruning-in-progress marker: an interrupted pruning pass resumes at the next prune epoch after an import; answers inside the window do not depend on it",
-	"twap/0x01/value":      "x/twap pruning-in-progress marker (see above)",
+	"staking/0x50/only-A":           "x/staking historical info (block headers of the last N heights): not part of genesis by design",
+	"staking/0x50/value":            "x/staking historical info: not part of genesis by design",
+	"staking/0x37/only-A":           "x/staking unbonding-id counter and index: same cause as the known finding fork-export/staking/...unbonding_id",
+	"staking/0x38/only-A":           "x/staking unbonding-id index: same cause as the known finding fork-export/staking/...unbonding_id",
+	"staking/0x39/only-A":           "x/staking unbonding-id index: same cause as the known finding fork-export/staking/...unbonding_id",
+	"slashing/0x10/only-A":          "x/slashing missed-block bitmap chunks that are all zero are not exported (no missed block recorded in them)",
+	"wasm/0x08/only-A":              "x/wasm TX counter of the current block: transient bookkeeping, not part of genesis by design",
+	"bank/0x58/only-A":              "bank supply offsets: reported by the import-query/bank/supply-of oracle (known finding)",
+	"bank/0x58/value":               "bank supply offsets: reported by the import-query/bank/supply-of oracle (known finding)",
+	"epochs/0x01/value":             "x/epochs current_epoch_start_height is set to the import height: compared field by field by the export oracles (known finding when superfluid is in use)",
+	"incentives/0x04/only-A":        "x/incentives gauge references by status and start time: upcoming gauges whose start time has passed are filed as active on import (known finding export-roundtrip/incentives/gauges<order>)",
+	"incentives/0x03/only-A":        "x/incentives does not export finished gauges (only not-finished ones are part of its genesis)",
+	"twap/0x01/only-A":              "x/twap pruning-in-progress marker: an interrupted pruning pass resumes at the next prune epoch after an import; answers inside the window do not depend on it",
+	"twap/0x01/value":               "x/twap pruning-in-progress marker (see above)",
 	"lockup/0x20-empty-name/only-A": "lockup accumulation tree opened under the empty denomination by AddTokensToLock / unlock when no synthetic lock exists: never read by any query",
 	"lockup/0x20-empty-name/value":  "lockup accumulation tree under the empty denomination (see above)",
 	"concentratedliquidity/accum-zero-share-record/only-A": "accumulator position record with zero shares and no unclaimed rewards left behind by a withdrawn position: not exported, not visible to any query",
-	"lockup/0x20/only-A": "lockup accumulation sum-tree nodes: leaves whose amount went back to zero stay in the tree on a running node and are not rebuilt on import; the sums themselves are compared for every denomination and duration by the import-query/lockup/accumulation oracle",
-	"lockup/0x20/value":  "lockup accumulation sum-tree nodes (see lockup/0x20/only-A): inner nodes list zero-amount children",
-	"protorev/0x12/value":  "x/protorev cyclic-arb tracker start height: InitGenesis re-bases a zero start height at the import height (documented under the export oracles)",
-	"protorev/0x11/value":  "x/protorev cyclic-arb tracker (see protorev/0x12)",
+	"lockup/0x20/only-A":  "lockup accumulation sum-tree nodes: leaves whose amount went back to zero stay in the tree on a running node and are not rebuilt on import; the sums themselves are compared for every denomination and duration by the import-query/lockup/accumulation oracle",
+	"lockup/0x20/value":   "lockup accumulation sum-tree nodes (see lockup/0x20/only-A): inner nodes list zero-amount children",
+	"protorev/0x12/value": "x/protorev cyclic-arb tracker start height: InitGenesis re-bases a zero start height at the import height (documented under the export oracles)",
+	"protorev/0x11/value": "x/protorev cyclic-arb tracker (see protorev/0x12)",
 }
 
 // refineRawClass splits two key classes by content: accumulator position records that hold no shares and
